@@ -44,6 +44,8 @@ def parseExpr : Nat → List String → Option (Expr × List String)
         let (a, r) ← parseExpr f r
         pure (.mulc k a, r)
       | [] => none
+    else if t == "K" then some (Expr.key, rest)
+    else if t.startsWith "V" then ((t.drop 1).toString.toNat?).map fun n => (Expr.loc n, rest)
     else if t.startsWith "L" then (parseInt (t.drop 1).toString).map fun n => (.lit n, rest)
     else if t.startsWith "R" then ((t.drop 1).toString.toNat?).map fun n => (.rd true n, rest)
     else none
@@ -134,6 +136,29 @@ def parseView : Nat → List String → Option (Option View × List String)
         let (ls, r) ← parseLists n r
         pure (some (.forKeyed sel ls), r)
       | [] => none
+    else if t == "forr" then do
+      let (sel, r) ← parseExpr (f + 1) rest
+      match r with
+      | n :: r =>
+        let n ← n.toNat?
+        if n == 0 || n > 16 then none else
+        let (ls, r) ← parseLists n r
+        let (row, r) ← parseView f r
+        pure (row.map (View.forRows sel ls), r)
+      | [] => none
+    else if t == "sc" then
+      match rest with
+      | sid :: "m" :: r => do
+        let sid ← sid.toNat?
+        let (b, r) ← parseExpr (f + 1) r
+        let (k, r) ← parseView f r
+        pure (k.map (View.scope sid (.memo b)), r)
+      | sid :: "s" :: v :: r => do
+        let sid ← sid.toNat?
+        let v ← parseInt v
+        let (k, r) ← parseView f r
+        pure (k.map (View.scope sid (.sig v)), r)
+      | _ => none
     else if t == "susp" then do
       let (_, r) ← parseExpr (f + 1) rest
       let (_, r) ← parseView f r
@@ -215,6 +240,16 @@ def showState (m : IdMap) : RState → List String × IdMap
   | .either _ _ _ _ _ inner => showState m inner
   | .show _ _ _ _ _ _ inner => showState m inner
   | .forK _ _ _ ks texts => showRows m ks texts ks.w.kids
+  | .scope _ _ _ inner => showState m inner
+  | .rows _ _ _ _ ks items =>
+    let (rs, m) := showState m items
+    let (c, m) := canon m ks.marker
+    (rs ++ [s!"C{c}.0:-"], m)
+  | .rowCons _ r rest =>
+    let (a, m) := showState m r
+    let (b, m) := showState m rest
+    (a ++ b, m)
+  | .rowNil => ([], m)
 
 def showDom (m : IdMap) (st : St) : String × IdMap :=
   let (t, m) := showN m st.rootN
@@ -267,6 +302,9 @@ def structGuards (o : Orc) : View → List Guard
   | .either c a b => .reads (o.reads c) :: (if o.eval c != 0 then structGuards o a else structGuards o b)
   | .show c a b => .showCond c :: (if o.eval c != 0 then structGuards o a else structGuards o b)
   | .forKeyed sel _ => [.reads (o.reads sel)]
+  -- views with component-local state: the untouched-nodes oracle is not applied (`snapState` = none)
+  | .scope _ _ _ => []
+  | .forRows _ _ _ => []
 
 def attrGuards (o : Orc) : List Attr → List Guard
   | [] => []
@@ -315,6 +353,10 @@ def curNodes : RState → List (Nat × Nat)
     ks.w.kids.flatMap fun li =>
       if li == ks.marker then [(li, 0)]
       else [(li, 1), (((texts.find? (·.1 == li)).map (·.2)).getD 0, 0)]
+  | .scope _ _ _ inner => curNodes inner
+  | .rows _ _ _ _ ks items => curNodes items ++ [(ks.marker, 0)]
+  | .rowCons _ r rest => curNodes r ++ curNodes rest
+  | .rowNil => []
 
 /-! known-finding classes (decidable predicates on the program) -/
 
@@ -350,6 +392,18 @@ def viewExprs : View → List Expr
   | .either c a b => c :: (viewExprs a ++ viewExprs b)
   | .show c a b => c :: (viewExprs a ++ viewExprs b)
   | .forKeyed sel _ => [sel]
+  | .scope _ _ kid => viewExprs kid
+  | .forRows sel _ row => sel :: viewExprs row
+
+/-- the view uses component-local state or rows with content of their own -/
+def isX : View → Bool
+  | .text _ | .unit | .dynText _ | .forKeyed _ _ => false
+  | .elem _ _ kid => isX kid
+  | .seq a b => isX a || isX b
+  | .either _ a b => isX a || isX b
+  | .show _ a b => isX a || isX b
+  | .scope _ _ _ => true
+  | .forRows _ _ _ => true
 
 def hasFor : View → Bool
   | .text _ | .unit | .dynText _ => false
@@ -358,6 +412,8 @@ def hasFor : View → Bool
   | .either _ a b => hasFor a || hasFor b
   | .show _ a b => hasFor a || hasFor b
   | .forKeyed _ _ => true
+  | .scope _ _ kid => hasFor kid
+  | .forRows _ _ _ => false
 
 def sortNat (l : List Nat) : List Nat :=
   l.foldl (fun acc x => (acc.filter (· < x)) ++ [x] ++ acc.filter (fun y => !(y < x))) []
@@ -373,6 +429,7 @@ def serializeSorted : RState → List Tok
   | .either _ _ _ _ _ inner => serializeSorted inner
   | .show _ _ _ _ _ _ inner => serializeSorted inner
   | .forK _ _ _ ks _ => (sortNat (forRows ks)).flatMap rowTree ++ [.comment]
+  | t => serialize t
 
 def renderSorted (ρ : Nat → Int) : View → List Tok
   | .text s => [.text (.lit s)]
@@ -383,6 +440,7 @@ def renderSorted (ρ : Nat → Int) : View → List Tok
   | .either c a b => if Reactive.evalPure ρ c != 0 then renderSorted ρ a else renderSorted ρ b
   | .show c a b => if Reactive.evalPure ρ c != 0 then renderSorted ρ a else renderSorted ρ b
   | .forKeyed sel lists => (sortNat (listAt lists (Reactive.evalPure ρ sel))).flatMap rowTree ++ [.comment]
+  | v => render ρ v
 
 /-! ## driver state -/
 
@@ -395,7 +453,33 @@ structure DState where
   snap : Option Snap := none
   written : List Nat := []
   envs : List (Nat → Int) := []
+  /-- the model predicted a panic of the real code (a run read a disposed component-local value) -/
+  dead : Bool := false
   deriving Inhabited
+
+/-- the value of the live component-local signal of `scope sid` under the rows keyed `path` -/
+def sigVal (st : St) (sid : Nat) (path : List Nat) : Option Int :=
+  match st.root with
+  | some t =>
+    ((t.sigPaths []).find? fun x => x.1 == sid && x.2.1 == path).map fun x => Reactive.envOf st.rs x.2.2
+  | none => none
+
+def freshOf (st : St) (v : View) : List Tok :=
+  if isX v then renderL st.env (sigVal st) v [] 0 [] else render st.env v
+
+/-- one task poll; `true` when a run of this poll read a component-local node that was already disposed
+(the real code panics there: "tried to access a reactive value that has already been disposed") -/
+def pollChecked (st : St) (i : Nat) : St × Bool :=
+  let st' := pollNth st i
+  let new := st'.rs.log.drop st.rs.log.length
+  (st', new.any fun ev => match ev with | .rdv _ id _ => st.dead.contains id | _ => false)
+
+def idleChecked : Nat → St → St × Bool
+  | 0, st => (st, false)
+  | k + 1, st =>
+    if (ready st).isEmpty then (st, false) else
+    let (st, bad) := pollChecked st 0
+    if bad then (st, true) else idleChecked k st
 
 def DState.orc (d : DState) : Orc := { defs := d.defs, env := d.st.env }
 
@@ -420,7 +504,7 @@ def verdict (d : DState) : String × DState :=
   else
     match d.view, d.st.root with
     | some v, some t =>
-      let fresh := render d.st.env v
+      let fresh := freshOf d.st v
       if serialize t != fresh then
         let cls :=
           if hasFor v && serializeSorted t == renderSorted d.st.env v then "dom-order-move-elided"
@@ -441,6 +525,7 @@ def verdict (d : DState) : String × DState :=
 
 def outLine (d : DState) (pre : String) : DState × String :=
   if d.skip then (d, "skip") else
+  if d.dead then (d, "panic ## fail read-disposed") else
   let (dom, m) := showDom d.idmap d.st
   let d := { d with idmap := m }
   let r := (ready d.st).map (taskIx d.st)
@@ -450,6 +535,9 @@ def outLine (d : DState) (pre : String) : DState × String :=
 def stepLine (d : DState) (line : String) : DState × String :=
   match words line with
   | ["case", n] => ({}, s!"case {n}")
+  | _ =>
+  if d.dead then (d, "dead") else
+  match words line with
   | ["sig", v] =>
     match parseInt v with
     | some v =>
@@ -467,7 +555,7 @@ def stepLine (d : DState) (line : String) : DState × String :=
     match parseView (toks.length + 1) toks with
     | some (none, []) => ({ d with skip := true }, "skip")
     | some (some v, []) =>
-      if !v.wf d.defs.length then (d, "bad-op") else
+      if !(if isX v then v.wfX d.defs.length 0 false else v.wf d.defs.length) then (d, "bad-op") else
       let d := { d with st := mount d.st v, view := some v }
       outLine { d with envs := [d.st.env] } ""
     | _ => (d, "bad-op")
@@ -481,18 +569,28 @@ def stepLine (d : DState) (line : String) : DState × String :=
         outLine { d with written := id :: d.written, envs := d.st.env :: d.envs } ""
       | _, _ => (d, "bad-op")
     | _, _ => (d, "bad-op")
+  | ["setl", sid, v] =>
+    if d.skip then (d, "skip") else
+    match sid.toNat?, parseInt v, d.view with
+    | some sid, some v, some _ =>
+      -- the written set is keyed by signal ids: local signals take the ids above the program's
+      let d := { d with st := setLocal d.st sid v }
+      outLine { d with written := (1000000 + sid) :: d.written, envs := d.st.env :: d.envs } ""
+    | _, _, _ => (d, "bad-op")
   | ["poll", i] =>
     if d.skip then (d, "skip") else
     match i.toNat?, d.view with
     | some i, some _ =>
       let r := ready d.st
       let polled := if r.isEmpty then "none" else toString (taskIx d.st (r.getD (i % r.length) 0))
-      outLine { d with st := pollNth d.st i } s!"polled={polled} "
+      let (st, bad) := pollChecked d.st i
+      outLine { d with st := st, dead := bad } s!"polled={polled} "
     | _, _ => (d, "bad-op")
   | ["idle"] =>
     if d.skip then (d, "skip") else
     if d.view.isNone then (d, "bad-op") else
-    outLine { d with st := runIdle 100000 d.st } ""
+    let (st, bad) := idleChecked 100000 d.st
+    outLine { d with st := st, dead := bad } ""
   | ["dispose"] =>
     if d.skip then (d, "skip") else
     if d.view.isNone || d.st.disposed then (d, "bad-op") else
